@@ -177,20 +177,21 @@ func r04_2(c *Ctx, rule string) {
 			}
 			cl := closes[0]
 			_, isDefer := cl.(*ssa.Defer)
-			g := cl.Parent()
-			first := true
-			for _, call := range eng.Calls(g) {
-				if call == cl {
-					break
-				}
-				if _, isD := call.(*ssa.Defer); isD {
-					continue
-				}
-				first = false
+			// the goroutine body: the function holding the close, or the one
+			// caller of the helper it was moved to
+			tops := c.tops(cl)
+			var g *ssa.Function
+			if len(tops) == 1 {
+				g = tops[0]
 			}
-			inEntry := cl.Block().Index == 0
-			startedOnce := false
-			if par := g.Parent(); par != nil {
+			first, inEntry, startedOnce := false, true, false
+			if g != nil && isDefer {
+				// no return of the goroutine body is reachable before the defer is installed
+				ok, _, und := c.Precedes(g, nil, nil, func(x ssa.Instruction) bool { return x == ssa.Instruction(cl) }, isReturn)
+				first = ok && !und
+			}
+			if g != nil && g.Parent() != nil {
+				par := g.Parent()
 				k := 0
 				eng.Instrs(par, func(x ssa.Instruction) {
 					if mc, ok := x.(*ssa.MakeClosure); ok && mc.Fn == ssa.Value(g) {
@@ -202,6 +203,9 @@ func r04_2(c *Ctx, rule string) {
 					}
 				})
 				startedOnce = k == 1
+			}
+			if g == nil {
+				g = cl.Parent()
 			}
 			c.R.Check(isDefer && first && inEntry && startedOnce, rule, con+"/deferred-close", c.pos(cl),
 				"closed by a defer at the start of "+c.name(g)+", which is started once",
@@ -343,7 +347,7 @@ func r04_4send(c *Ctx, rule string) {
 	finCalls := map[string]bool{}
 	eng.Instrs(loop, func(in ssa.Instruction) {
 		if call, ok := in.(*ssa.Call); ok && c.sendsPacket(call, "PACKET_FIN") {
-			finCalls[call.Name()] = true
+			finCalls[c.reg(call)] = true
 		}
 	})
 	x.Target = func(in ssa.Instruction, st *eng.State) bool {
@@ -351,7 +355,7 @@ func r04_4send(c *Ctx, rule string) {
 			return false
 		}
 		r := in.(*ssa.Return)
-		if len(r.Results) == 1 && finCalls[x.KeyOf(r.Results[0], st)] {
+		if len(r.Results) == 1 && finCalls[x.SourceKey(r.Results[0], st)] {
 			echo++
 			return false
 		}
@@ -482,15 +486,12 @@ func r04_4recv(c *Ctx, rule string) {
 		// main loop: EOF is an error too. The main-loop RecvMsg is the one
 		// whose message argument is not freshly allocated inside the FIN arm:
 		// identify it as the RecvMsg that is NOT dominated by the FIN test's true edge.
-		finArm := site.Block()
-		for _, r := range eng.Referrers(site) {
-			if iff, ok := r.(*ssa.If); ok {
-				finArm = iff.Block().Succs[0]
-			}
-		}
+		// whose message argument is not freshly allocated inside the FIN arm:
+		// the RecvMsg that can be reached while no FIN has been received.
 		for _, call := range c.P.CallsTo(loop, "(fsutil.Stream).RecvMsg") {
-			if finArm == call.Block() || finArm.Dominates(call.Block()) {
-				continue
+			call := call
+			if hit, und := c.ReachableUnder(loop, map[string]bool{key: false}, nil, func(in ssa.Instruction) bool { return in == ssa.Instruction(call) }); hit == nil && !und {
+				continue // only executed on the FIN arm: the drain read
 			}
 			k, _, _ := c.errValueOf(call)
 			ex := c.explorer(loop)
@@ -608,6 +609,7 @@ func r04_6(c *Ctx, rule string) {
 				continue
 			}
 			if name == "(fsutil.Stream).RecvMsg" && strings.HasPrefix(c.name(fn), "fsutil.(*receiver).run$") {
+				// (fn is an anchor: a call inside a helper is visited from its callers)
 				continue // decided precisely by R04.4b (io.EOF after FIN is success by design)
 			}
 			if ok, why := c.bestEffortSend(call); ok {
